@@ -1,4 +1,4 @@
-import MypyVerif.Proofs.Bind
+import MypyVerif.Proofs.BindDup
 /-!
 # C12 (call binding) — mypy rejects a call for arity/keyword reasons iff CPython raises TypeError
 
@@ -17,8 +17,11 @@ evaluation + `initialize_locals`).  `Sig` is a `def` signature with positional-o
 * `arity_iff_star`, `expand_star_equiv`
                               the same with `*tuple` actuals of known length anywhere among the positional
                               actuals: a `*tuple` of length k behaves, in both models, like k positionals
-* `**TypedDict` actuals       no general theorem: the three F9 shapes live there; covered by the exhaustive
-                              correspondence, the shapes are the decidable predicates of Model/PyBind.lean
+* `arity_iff_partial`         the property on *every* call shape with known sizes/keys outside the four
+                              decidable shapes F8, F9 (i), (ii), (iii)
+* `arity_typeddict_no_false_reject`, `arity_iff_typeddict`
+                              with `**TypedDict` actuals as well (supplied keys pairwise distinct): no false
+                              reject without any exclusion; the iff outside the shapes F9 (ii) and F9 (iii)
 -/
 namespace PyBind
 open ArgMap
@@ -108,6 +111,115 @@ theorem expand_star_equiv (s : Sig) (hwf : s.WF) (pa : List (Option Nat)) (kws :
   · unfold pyRaises
     rw [pyCall_star s pa kws hk, pyCall_core s (width pa) kws hk]
 
+/-! ## `**TypedDict` actuals -/
+
+/-- **no false reject** (`expand_kw_equiv`, direction ⇒, no exclusion): for every well-formed signature and
+    every call made of positional actuals, `*tuple`s of known length, explicit keywords and `**TypedDict`
+    actuals whose supplied keys are pairwise distinct — if CPython's model binds the call, mypy's model
+    reports no arity / keyword diagnostic. -/
+theorem arity_typeddict_no_false_reject (s : Sig) (hwf : s.WF) (pa : List (Option Nat)) (kg : List KwGroup)
+    (hk : (flatKeys kg).Nodup) :
+    pyRaises s (fullCall pa kg) = some false → mypyRejects s.toFormals (fullCall pa kg) = false := by
+  unfold pyRaises mypyRejects
+  rw [pyCall_full s pa kg hk]
+  simp only [Option.map_some, Option.some.injEq]
+  intro h
+  have hb : pyBind s (width pa) (flatKeys kg) = none := by
+    cases hp : pyBind s (width pa) (flatKeys kg) with
+    | none => rfl
+    | some e => rw [hp] at h; simp at h
+  rw [mypy_ok_of_coreOk_full s hwf pa kg hk ((pyBind_none_iff s _ _ hk).1 hb)]
+  rfl
+
+/-- **arity_iff_typeddict** (`expand_kw_equiv_partial`): the same calls, outside the two shapes
+    `StarThenTypedDict` (F9 ii) and `TypedDictKeyNamesStarArgs` (F9 iii): mypy's model reports an arity /
+    keyword diagnostic if and only if CPython's model raises `TypeError`. -/
+theorem arity_iff_typeddict (s : Sig) (hwf : s.WF) (pa : List (Option Nat)) (kg : List KwGroup)
+    (hk : (flatKeys kg).Nodup)
+    (hb9 : StarThenTypedDict s.toFormals (fullCall pa kg) = false)
+    (hc9 : TypedDictKeyNamesStarArgs s.toFormals (fullCall pa kg) = false) :
+    mypyRejects s.toFormals (fullCall pa kg) = true ↔ pyRaises s (fullCall pa kg) = some true := by
+  have h2 := pyBind_none_iff s (width pa) (flatKeys kg) hk
+  unfold mypyRejects pyRaises
+  rw [pyCall_full s pa kg hk]
+  simp only [Option.map_some, Option.some.injEq]
+  constructor
+  · intro h
+    cases hb : pyBind s (width pa) (flatKeys kg) with
+    | some e => rfl
+    | none =>
+      have := mypy_ok_of_coreOk_full s hwf pa kg hk (h2.1 hb)
+      rw [this] at h; simp at h
+  · intro h
+    cases hm : mypyErrors s.toFormals (fullCall pa kg) with
+    | cons e es => rfl
+    | nil =>
+      have := h2.2 (coreOk_of_mypy_ok_full s hwf pa kg hk hb9 hc9 hm)
+      rw [this] at h; simp at h
+
+/-- **arity_iff_partial** — the property on every call shape with statically known sizes and keys, outside
+    the known-defect shapes.  `fullCall pa kg` is a call as mypy (and Python's `ast`) orders it: positional and
+    `*tuple` actuals (`pa`, any lengths ≥ 0), then explicit keywords and `**TypedDict` actuals (`kg`).
+    Hypotheses: the signature is well formed; explicit keywords are pairwise distinct and the keys of each
+    TypedDict are distinct (`SyntaxOK`, guaranteed by Python's grammar and by TypedDict); and the call is in
+    none of the four decidable shapes of `Model/PyBind.lean` — F8 (two TypedDicts share a key: mypy crashes),
+    F9 (i) `KwDupIntoStar`, F9 (ii) `StarThenTypedDict`, F9 (iii) `TypedDictKeyNamesStarArgs`.
+    Then mypy's model reports an arity / keyword diagnostic ⇔ CPython's model raises `TypeError`. -/
+theorem arity_iff_partial (s : Sig) (hwf : s.WF) (pa : List (Option Nat)) (kg : List KwGroup)
+    (hsyn : SyntaxOK kg)
+    (h8 : TwoTypedDictsShareKey (fullCall pa kg) = false)
+    (h9a : KwDupIntoStar s.toFormals (fullCall pa kg) = false)
+    (h9b : StarThenTypedDict s.toFormals (fullCall pa kg) = false)
+    (h9c : TypedDictKeyNamesStarArgs s.toFormals (fullCall pa kg) = false) :
+    mypyRejects s.toFormals (fullCall pa kg) = true ↔ pyRaises s (fullCall pa kg) = some true := by
+  by_cases hk : (flatKeys kg).Nodup
+  · exact arity_iff_typeddict s hwf pa kg hk h9b h9c
+  · -- a key is supplied twice: CPython raises at the call site, mypy reports it
+    have hpy := pyRaises_dup s pa kg hk
+    obtain ⟨c1, c2, g1, g2, x, hlt, h1, h2, hx1, hx2⟩ := dup_groups kg hsyn.2 hk
+    have hroute := routes_false_of_f9a s pa kg h9a (two_le_count kg c1 c2 g1 g2 x hlt h1 h2 hx1 hx2)
+    have hmy : mypyErrors s.toFormals (fullCall pa kg) ≠ [] := by
+      cases g1 with
+      | kw y =>
+        simp only [KwGroup.keys, List.mem_singleton] at hx1; subst hx1
+        cases g2 with
+        | kw z =>
+          simp only [KwGroup.keys, List.mem_singleton] at hx2; subst hx2
+          exact absurd h2 (fun h2 => hsyn.1 c1 c2 x hlt h1 h2)
+        | td ks => exact dup_key_rejected s pa kg x c1 c2 ks h1 h2 hx2 hroute
+      | td ks1 =>
+        cases g2 with
+        | kw z =>
+          simp only [KwGroup.keys, List.mem_singleton] at hx2; subst hx2
+          exact dup_key_rejected s pa kg x c2 c1 ks1 h2 h1 hx1 hroute
+        | td ks2 => exact absurd hx2 (fun hx2 => noShared_of_f8 pa kg h8 c1 c2 ks1 ks2 x hlt h1 h2 hx1 hx2)
+    constructor
+    · intro _; exact hpy
+    · intro _
+      unfold mypyRejects
+      cases hm : mypyErrors s.toFormals (fullCall pa kg) with
+      | nil => exact absurd hm hmy
+      | cons e es => rfl
+
+/-- non-vacuity of `arity_iff_partial`: `def f(a, b=0, *, k)`; `f(*(1,), **{'b': …}, k=…)` satisfies every
+    hypothesis (and binds), as does the rejected `f(**{'b': …}, b=…, k=…)`, a repeated key on a named formal -/
+example :
+    let s : Sig := { posonly := [], poskw := [1, 2], ndef := 1, varargs := none, kwonly := [(5, false)], varkw := none }
+    let pa : List (Option Nat) := [some 1]
+    let kg : List KwGroup := [.td [2], .kw 5]
+    s.WF ∧ SyntaxOK kg ∧ TwoTypedDictsShareKey (fullCall pa kg) = false ∧
+    KwDupIntoStar s.toFormals (fullCall pa kg) = false ∧ StarThenTypedDict s.toFormals (fullCall pa kg) = false ∧
+    TypedDictKeyNamesStarArgs s.toFormals (fullCall pa kg) = false ∧
+    mypyRejects s.toFormals (fullCall pa kg) = false ∧
+    mypyRejects s.toFormals (fullCall [] [.td [2], .kw 2, .kw 5]) = true ∧
+    KwDupIntoStar s.toFormals (fullCall [] [.td [2], .kw 2, .kw 5]) = false := by
+  refine ⟨by decide, ⟨?_, ?_⟩, by decide, by decide, by decide, by decide, by decide, by decide, by decide⟩
+  · intro c1 c2 x hlt h1 h2
+    rcases c1 with _ | _ | c1 <;> rcases c2 with _ | _ | c2 <;> simp at h1 h2 <;> omega
+  · intro g hg
+    simp at hg
+    rcases hg with rfl | rfl <;> decide
+
 /-! ## the full statement is false of the current code (F9) -/
 
 /-- The full statement: for every well-formed signature and every call whose `*`/`**` actuals have
@@ -130,18 +242,26 @@ theorem not_arity_iff_star_kw : ¬ ArityIff := by
     [.star (some 1), .star2 (some [1])] (by decide) (by decide)).2 (by decide)
   exact absurd this (by decide)
 
-/-- F9 (iii): `def f(*va)`; `f(**{'va': 1})` — mypy silent, CPython "unexpected keyword argument 'va'" -/
-theorem not_arity_iff_typeddict_names_star_args : ¬ ArityIff := by
+/-- F9 (iii): `def f(*va)`; `f(**{'va': 1})` — mypy silent, CPython "unexpected keyword argument 'va'".
+    Holds for a mapper whose TypedDict branch lacks the `!= ARG_STAR` test (generated constant
+    `Cfg.typedDictKeyMayNameStarArgs`, translate/c12bind.py — `true` for the code as found). -/
+theorem not_arity_iff_typeddict_names_star_args (hcfg : Cfg.typedDictKeyMayNameStarArgs = true) : ¬ ArityIff := by
   intro h
+  have key : Cfg.typedDictKeyMayNameStarArgs = true →
+      mypyRejects ({ posonly := [], poskw := [], ndef := 0, varargs := some 8, kwonly := [], varkw := none } : Sig).toFormals
+        [.star2 (some [8])] = false := by decide
   have := (h { posonly := [], poskw := [], ndef := 0, varargs := some 8, kwonly := [], varkw := none }
     [.star2 (some [8])] (by decide) (by decide)).2 (by decide)
-  exact absurd this (by decide)
+  rw [key hcfg] at this
+  cases this
 
-/-- the three witnesses lie in the three excluded shapes, one each -/
+/-- the three witnesses lie in the three excluded shapes, one each (the third shape exists only for a
+    mapper with `Cfg.typedDictKeyMayNameStarArgs`) -/
 theorem witnesses_in_excluded_shapes :
     KwDupIntoStar [{ kind := .star2, name := some 9 }] [.named 7, .star2 (some [7])] = true ∧
     StarThenTypedDict [{ kind := .pos, name := some 1 }] [.star (some 1), .star2 (some [1])] = true ∧
-    TypedDictKeyNamesStarArgs [{ kind := .star, name := some 8 }] [.star2 (some [8])] = true := by
+    TypedDictKeyNamesStarArgs [{ kind := .star, name := some 8 }] [.star2 (some [8])] =
+      Cfg.typedDictKeyMayNameStarArgs := by
   decide
 
 /-! ## non-vacuity -/
